@@ -71,6 +71,12 @@ def signatures(tier):
     rets = [None] + D + SYM
     all2 = ["pos", "kw"]
     all4 = ["pos", "kw", "kwrev", "mixed"]
+    # axis names that coincide with names of the `math` module / builtins (e, pi, tau, gamma, max)
+    for nm in ("e", "pi", "gamma", "max"):
+        for r in (f"{nm}+1", f"2*{nm}", nm):
+            yield (nm,), r, S5[1:4], S5[1:], NEW, ["pos"]
+        yield (f"b {nm}",), f"b 2*{nm}", [(2, 2), (2, 3), (3, 2)], [(2, 4), (2, 6), (3, 4)], NEW, ["kw"]
+        yield (nm, f"{nm}+1"), None, S5[1:4], S, NEW + DC, ["pos", "kwrev"]
     if tier == "quick":
         for d in D:
             for r in rets:
@@ -162,8 +168,20 @@ def _shard(job):
     viols, samples = [], []
     cache = {}
     nontrivial = set()
-    axes = {d: rdims.parse(d)[1] for d in D + SYM}
-    ducks = {sh: Duck(sh) for sh in S}
+    class _Axes(dict):
+        def __missing__(self, d):
+            st, ax = rdims.parse(d)
+            assert st == "ok", (d, st)
+            self[d] = ax
+            return ax
+
+    axes = _Axes()
+    class _Ducks(dict):
+        def __missing__(self, sh):
+            self[sh] = Duck(sh)
+            return self[sh]
+
+    ducks = _Ducks()
 
     def oracle(cons):
         key = tuple(sorted(cons))
